@@ -31,6 +31,8 @@ def _case(draw, tier):
     c = draw(gen.rich_case(tier))
     c["runs"] = 1
     c["omit_required"] = False
+    c["bad_on_missing"] = False
+    c["exc"] = draw(st.sampled_from(["message", "message", "empty", "bare_class", "multiline", "non_str_args", "keyerror_empty"]))
     c["idx_draw"] = draw(st.lists(st.integers(0, 10_000), min_size=40, max_size=40))
     c["async_style"] = draw(st.booleans())
     return c
@@ -40,7 +42,26 @@ def strategy(tier):
     return _case(tier)
 
 
-def _make_probe_classes():
+class _Boom(Exception):
+    pass
+
+
+def _exc(kind, where):
+    """The exception a failing observer raises: with a message, without one, with odd arguments."""
+    if kind == "empty":
+        return RuntimeError()
+    if kind == "bare_class":
+        return _Boom()
+    if kind == "multiline":
+        return RuntimeError(f"\nobserver failure {where}\n  second line\n")
+    if kind == "non_str_args":
+        return ValueError(3, None, (where,))
+    if kind == "keyerror_empty":
+        return KeyError("")
+    return RuntimeError(f"observer failure {where}")
+
+
+def _make_probe_classes(exc_kind="message"):
     from hypergraph.events import AsyncEventProcessor, EventProcessor
 
     class Probe(EventProcessor):
@@ -57,12 +78,12 @@ def _make_probe_classes():
             self.i += 1
             self.events.append(event)
             if self.fail_at == "all" or self.fail_at == i:
-                raise RuntimeError(f"observer failure at event {i}")
+                raise _exc(exc_kind, f"at event {i}")
 
         def shutdown(self):
             self.shutdowns += 1
             if self.fail_at in ("shutdown", "all"):
-                raise RuntimeError("observer failure at shutdown")
+                raise _exc(exc_kind, "at shutdown")
 
     class AsyncProbe(AsyncEventProcessor):
         def __init__(self, fail_at=None):
@@ -103,10 +124,10 @@ def _err(e):
 
 
 def check_case(case, ev):
-    Probe, AsyncProbe = _make_probe_classes()
+    Probe, AsyncProbe = _make_probe_classes(case.get("exc", "message"))
     use_async_style = case["async_style"] and case["runner"] != "sync"
     P = AsyncProbe if use_async_style else Probe
-    labels = {f"kind:{case['kind']}", f"method:{case['method']}", f"runner:{case['runner']}", "style:" + ("async" if use_async_style else "sync")}
+    labels = {f"kind:{case['kind']}", f"method:{case['method']}", f"runner:{case['runner']}", "style:" + ("async" if use_async_style else "sync"), "exc:" + case.get("exc", "message")}
 
     def run_with(procs_fn):
         return execute(case, procs_fn, n_calls=1)
